@@ -4,7 +4,10 @@ from ..prop import Property, Case, Finding
 
 WEIRD = [b"", b"-", b"--", b"---", b"-=", b"--=", b"--=x", b"-x=", b"=", b"\xff", b"-\xff", b"--\xff=1", b"-a\xff",
          b"--a\xffb", b"a" * 300, b"-" + b"v" * 400, b"--" + b"n" * 200 + b"=1", b" ", b"\t", b"-\xc3", "-é".encode(),
-         "--é=é".encode(), b"-1", b"-1.5", b"--1", b"- ", b"-- ", b"-h", b"--help", b"-V", b"--version", b"-hh", b"-hV"]
+         "--é=é".encode(), b"-1", b"-1.5", b"--1", b"- ", b"-- ", b"-h", b"--help", b"-V", b"--version", b"-hh", b"-hV",
+         # unknown names made of multi-byte characters (the "did you mean" machinery measures distances in characters)
+         "--日本語日本語日本語".encode(), "日本語日本語".encode(), "--größenwahnsinnig".encode(), "ножницы-бумага".encode(),
+         "--ключ=значение".encode(), "-日本".encode(), "--🦀🦀🦀🦀🦀".encode()]
 
 
 def gen_any(rng):
@@ -45,7 +48,7 @@ class C04(Property):
             opts = gen.options(gen.con(rng.choice([g, gen.wrap("many", g), gen.wrap("optional", g)]), gen.flag(names.named())), descr="Ladj")
             return opts
         if r < 0.5:
-            opts, names = gen.gen_options(rng, features=("alt", "adj", "cmd", "pos"), allow_catch=rng.random() < 0.5,
+            opts, names = gen.gen_options(rng, features=("alt", "adj", "cmd", "pos", "grp"), allow_catch=rng.random() < 0.5,
                                           env_p=0.1)
         elif r < 0.65:
             # nested adjacent groups and adjacent commands
